@@ -721,6 +721,10 @@ static bool _binson_parser_init(binson_parser *parser,
     parser->buffer_size = buffer_size;
     parser->error_flags = BINSON_ERROR_NONE;
     parser->type        = type;
+    /* Defined cursor even when the buffer is rejected below. */
+    parser->depth       = 0;
+    parser->buffer_used = 0;
+    parser->current_state = &parser->state[0];
 
     return binson_parser_reset(parser);
 }
